@@ -52,6 +52,9 @@ type tr struct {
 	devirt  map[string]string // interface name -> struct whose pointers its values are (--devirt I=S)
 	rootPk  *pkgInfo          // the package named by --pkg
 	timeInt bool              // --timeint: time.Time is Z, Before/After/Equal are comparisons
+	strid   bool              // --strid: strings are ids (Z)
+	mparam  map[string]string // pkgname.Func -> monadic parameter NAME : M Z (--mparam)
+	errcode map[string]string // pkgname.Var -> code; non-empty: errors are Z codes (--errcode)
 	usesPtr bool              // the output needs lib.GoLitePtr (maps, iter_objs)
 	packed  map[string]bool   // struct types whose values are opaque handles built / read by pure parameters (--packed S)
 	chans   bool              // channels are opaque handles (--chan)
@@ -74,7 +77,7 @@ func (t *tr) failf(n ast.Node, format string, a ...any) {
 // extraFiles: file name -> text of the files written next to --out (--split)
 var extraFiles = map[string]string{}
 
-func translate(repo, pkgdir string, roots, fuels, params, ifaces, shapes, require, objects, vias, devirts, packeds, splits, effs, stdpkgs []string, chans, timeInt, printShapes bool) (text string, err error) {
+func translate(repo, pkgdir string, roots, fuels, params, ifaces, shapes, require, objects, vias, devirts, packeds, splits, effs, stdpkgs, mparams, errcodes []string, chans, timeInt, strid, printShapes bool) (text string, err error) {
 	defer func() {
 		if r := recover(); r != nil {
 			if u, ok := r.(*unsupported); ok {
@@ -115,6 +118,23 @@ func translate(repo, pkgdir string, roots, fuels, params, ifaces, shapes, requir
 	if timeInt {
 		t.timeInt = true
 		t.opaque["Time"] = true
+	}
+	t.strid = strid
+	t.mparam = map[string]string{}
+	for _, v := range mparams {
+		i := strings.Index(v, "=")
+		if i < 0 {
+			return "", fmt.Errorf("bad --mparam %q", v)
+		}
+		t.mparam[v[:i]] = v[i+1:]
+	}
+	t.errcode = map[string]string{}
+	for _, v := range errcodes {
+		i := strings.Index(v, "=")
+		if i < 0 {
+			return "", fmt.Errorf("bad --errcode %q", v)
+		}
+		t.errcode[v[:i]] = v[i+1:]
 	}
 	t.packed = map[string]bool{}
 	for _, v := range packeds {
@@ -494,6 +514,11 @@ func (t *tr) calleeOf(pk *pkgInfo, call *ast.CallExpr) *fnInfo {
 			}
 		}
 	}
+	if f.Pkg() != nil {
+		if _, ok := t.mparam[f.Pkg().Name()+"."+f.Name()]; ok {
+			return nil // a monadic parameter (--mparam)
+		}
+	}
 	// repository functions that are modelled by hand in GoLite (unsafe casts)
 	switch f.FullName() {
 	case t.w.mod + "/cast.StringToByteArray", t.w.mod + "/cast.ByteArrayToString":
@@ -524,6 +549,45 @@ func (t *tr) isErrCtor(fi *fnInfo) bool {
 }
 
 // libName: the full name of the called library function or method ("" if none)
+// mparamOf: the call is a call of a function that --mparam turned into a monadic parameter
+func (t *tr) mparamOf(pk *pkgInfo, call *ast.CallExpr) (string, bool) {
+	if len(t.mparam) == 0 || len(call.Args) != 0 {
+		return "", false
+	}
+	var obj types.Object
+	switch x := ast.Unparen(call.Fun).(type) {
+	case *ast.Ident:
+		obj = pk.info.Uses[x]
+	case *ast.SelectorExpr:
+		obj = pk.info.Uses[x.Sel]
+	}
+	f, ok := obj.(*types.Func)
+	if !ok || f.Pkg() == nil {
+		return "", false
+	}
+	n, ok := t.mparam[f.Pkg().Name()+"."+f.Name()]
+	return n, ok
+}
+
+// ptimeRecv: the call is t.Before/After/Equal(u) with t a *time.Time (--timeint): t is read through ptime_val
+func (t *tr) ptimeRecv(pk *pkgInfo, call *ast.CallExpr) bool {
+	if !t.timeInt {
+		return false
+	}
+	sel, ok := ast.Unparen(call.Fun).(*ast.SelectorExpr)
+	if !ok {
+		return false
+	}
+	switch libName(pk, call) {
+	case "(time.Time).Before", "(time.Time).After", "(time.Time).Equal":
+		if tv, ok := pk.info.Types[sel.X]; ok {
+			_, isPtr := types.Unalias(tv.Type).(*types.Pointer)
+			return isPtr
+		}
+	}
+	return false
+}
+
 func libName(pk *pkgInfo, call *ast.CallExpr) string {
 	fun := ast.Unparen(call.Fun)
 	sel, ok := fun.(*ast.SelectorExpr)
@@ -589,6 +653,17 @@ func (t *tr) classify() {
 				}
 				for _, l := range x.Lhs {
 					t.noteAssign(fi, l)
+					if sel, ok := ast.Unparen(l).(*ast.SelectorExpr); ok {
+						if tv, ok := info.Types[sel.X]; ok {
+							if n := t.packedOf(tv.Type); n != nil {
+								addParam(fi, t.packedParam(n, ""))
+								st := n.Underlying().(*types.Struct)
+								for i := 0; i < st.NumFields(); i++ {
+									addParam(fi, t.packedParam(n, st.Field(i).Name()))
+								}
+							}
+						}
+					}
 				}
 			case *ast.IncDecStmt:
 				t.noteAssign(fi, x.X)
@@ -691,6 +766,13 @@ func (t *tr) classify() {
 				}
 				if p, ok := t.libpar[libName(fi.pk, x)]; ok {
 					addParam(fi, param{p, "Z"})
+				}
+				if nm, ok := t.mparamOf(fi.pk, x); ok {
+					fi.pure = false
+					addParam(fi, param{nm, "M (Z)"})
+				}
+				if t.ptimeRecv(fi.pk, x) {
+					addParam(fi, param{"ptime_val", "Z -> Z"})
 				}
 				if name, sig, recv, ok := t.ifaceCall(fi.pk, x); ok {
 					fi.pure = false
@@ -1159,7 +1241,12 @@ func (t *tr) structOf(ty types.Type) *types.Named {
 	if _, isI := n.Underlying().(*types.Interface); isI {
 		// an interface whose values are pointers to one struct (--devirt I=S)
 		if sn, ok := t.devirt[n.Origin().Obj().Name()]; ok && n.Obj().Pkg() != nil {
-			if tn, ok := n.Obj().Pkg().Scope().Lookup(sn).(*types.TypeName); ok {
+			tn, ok := n.Obj().Pkg().Scope().Lookup(sn).(*types.TypeName)
+			if !ok && t.rootPk != nil && t.rootPk.pkg != nil {
+				// the struct that implements the interface lives in the root package (kvs.Storage / inmem.service)
+				tn, ok = t.rootPk.pkg.Scope().Lookup(sn).(*types.TypeName)
+			}
+			if ok {
 				if sn2, ok := types.Unalias(tn.Type()).(*types.Named); ok {
 					n = sn2
 				}
@@ -1248,7 +1335,19 @@ func (t *tr) coqType(at ast.Node, ty types.Type) string {
 		return strings.Join(parts, " * ")
 	}
 	if isErrorType(ty) {
+		if len(t.errcode) > 0 {
+			return "Z" // --errcode: an error code, 0 = nil
+		}
 		return "error"
+	}
+	if t.strid && isStringType(ty) {
+		return "Z" // --strid: a string id
+	}
+	if t.timeInt {
+		// *time.Time: an optional instant as a handle (0 = nil), read by the pure parameter ptime_val
+		if pt, ok := ty.(*types.Pointer); ok && t.opaqueName(pt.Elem()) == "Time" {
+			return "Z"
+		}
 	}
 	if t.opaqueName(ty) != "" {
 		return "Z" // an opaque handle
@@ -1290,7 +1389,8 @@ func (t *tr) coqType(at ast.Node, ty types.Type) string {
 		}
 	case *types.Map:
 		_, chanElem := types.Unalias(u.Elem()).Underlying().(*types.Chan)
-		if isIntegerType(u.Key()) && (isIntegerType(u.Elem()) || t.objectOf(u.Elem()) != nil || (chanElem && t.chans)) {
+		keyOK := isIntegerType(u.Key()) || (t.strid && isStringType(u.Key()))
+		if keyOK && (isIntegerType(u.Elem()) || t.objectOf(u.Elem()) != nil || (chanElem && t.chans) || t.packedOf(u.Elem()) != nil || (t.strid && isStringType(u.Elem()))) {
 			t.usesPtr = true
 			return "gomap" // an association list value (lib/GoLitePtr.v)
 		}
@@ -1368,7 +1468,7 @@ func init() {
 		zlen znth zsub zsplice gslice mkSl s_arr s_off s_len s_cap nil_slice arr_get arr_set sl_get sl_cap sl_put wf_slice
 		load store reslice gocopy gomake step Next Done ctl Fall Return iter be_bytes be_put be_val be_get cast_id
 		Z N nat bool unit tt true false list nil cons fst snd pair negb andb orb length app nth firstn skipn repeat map
-		Some None option S O st c r_ chan_make chan_close chan_recv
+		Some None option S O st c r_ chan_make chan_close chan_recv ptime_val
 		gomap mapnew mapfind mapget mapdel mapset maplen iter_objs fld_load fld_store obj_new obj_arr goappend b2z z2b
 		left right inl inr inleft inright exist existT ex_intro conj or_introl or_intror eq_refl I Eq Lt Gt Z0 Zpos Zneg xH xO xI N0 Npos
 		id not and or iff ex eq le lt ge gt plus mult minus pred min max fold_left fold_right rev In Forall seq combine split
